@@ -15,11 +15,11 @@ lrun_flags / lrun_ends compute exactly these numbers (and that space = layout_en
 operation); the Examples are closed by vm_compute.
 
 usage:  PYTHONPATH=/repo /venv/bin/python /verif/tools/account_links_traces.py OUT.v SPEC [SPEC ...]
-        SPEC = scenario | SEED:NOPS        (random history from SEED with NOPS operations)
+        SPEC = scenario | example | SEED:NOPS        (random history from SEED with NOPS operations)
 check:  cd /verif/coq && coqc -q -Q theories PV -Q <dir of OUT.v> Tmp OUT.v
-
-theories/Proofs/AccountLinksTraces.v was produced by
-    account_links_traces.py /verif/coq/theories/Proofs/AccountLinksTraces.v scenario 1:40 2:40 3:40 4:40 5:40
+Write OUT.v OUTSIDE /verif/coq/theories: it depends on the behaviour of the library.  The harness
+(harness/props/accountlinksleaf.py) imports Runner / scenario / example / random_history /
+coq_bytes / coq_pairs from this file and evaluates the traces itself.
 """
 import collections
 import io
@@ -227,7 +227,7 @@ def random_history(run, seed, nops):
                 sd, sn = rng.choice(files)
                 src = sd + (sn,)
             elif r2 < 0.92:
-                src = rng.choice(dirs)            # a directory (or the root): accepted by pycdlib
+                src = rng.choice(dirs)            # a directory (or the root): refused
             else:
                 src = rng.choice(dirs) + (b'MISSING',)
             d = rng.choice(dirs) if not bogus else rng.choice(dirs) + (b'NOPE',)
@@ -264,8 +264,8 @@ def random_history(run, seed, nops):
 
 def scenario(run):
     """A fixed history: one content with names in three directories (two of them in a directory
-    that has grown to two blocks), links to a zero-length file, a link to a directory (which
-    pycdlib accepts: a record without inode), refused operations, rm_hard_link down to the last
+    that has grown to two blocks), links to a zero-length file, links whose old path is a
+    directory or the root (refused), other refused operations, rm_hard_link down to the last
     name, rm_file removing all names at once."""
     def long_name(i):
         return b'N' * 199 + bytes([65 + i]) + b';1'      # 202 bytes -> dr_len 236
@@ -277,8 +277,8 @@ def scenario(run):
         run.do(('AddLink', (b'A.;1',), (), long_name(i)))
     run.do(('AddLink', (long_name(3),), (b'D', b'E'), b'B.;1'))   # link made from a link
     run.do(('AddLink', (b'D', b'Z.;1'), (b'D',), b'Y.;1'))        # second name of an empty file
-    run.do(('AddLink', (b'D',), (), b'DL.;1'))            # old path is a directory: accepted
-    run.do(('AddLink', (), (b'D',), b'RL.;1'))            # old path is the root: accepted
+    run.do(('AddLink', (b'D',), (), b'DL.;1'))            # old path is a directory: refused
+    run.do(('AddLink', (), (b'D',), b'RL.;1'))            # old path is the root: refused
     run.do(('AddLink', (b'NOPE',), (), b'X.;1'))          # missing source: refused
     run.do(('AddLink', (b'A.;1',), (), b'A.;1'))          # duplicate target: refused
     run.do(('AddLink', (b'A.;1',), (), b'D'))             # target is a directory name: refused
@@ -289,8 +289,8 @@ def scenario(run):
     run.do(('RmLink', (), long_name(0)))
     run.do(('RmLink', (b'D',), b'Y.;1'))
     run.do(('RmLink', (b'D',), b'Z.;1'))                  # last name of the empty file
-    run.do(('RmFile', (), b'DL.;1'))                      # record without inode
-    run.do(('RmLink', (b'D',), b'RL.;1'))
+    run.do(('RmFile', (), b'DL.;1'))                      # was never created: refused
+    run.do(('RmLink', (b'D',), b'RL.;1'))                 # was never created: refused
     run.do(('AddFile', (), b'C.;1', 2049))
     run.do(('AddLink', (b'C.;1',), (b'D', b'E'), b'C2.;1'))
     run.do(('RmFile', (b'D', b'E'), b'B.;1'))             # all 8 remaining names of A's content
@@ -299,6 +299,19 @@ def scenario(run):
     run.do(('RmLink', (b'D', b'E'), b'C2.;1'))            # last name: content released
     run.do(('RmDir', (b'D', b'E')))
     run.do(('RmDir', (b'D',)))
+
+
+def example(run):
+    """The history lex_ops of Proofs/AccountLinksProofs.v (Example lex_history)."""
+    A, B, Cn, Y, Z, DL, D = b'A;1', b'B;1', b'C;1', b'Y;1', b'Z;1', b'DL;1', b'D'
+    for op in [('AddFile', (), A, 5000), ('AddDir', (), D), ('AddLink', (A,), (D,), B),
+               ('AddLink', (D, B), (), Cn), ('AddFile', (D,), Z, 0), ('AddLink', (D, Z), (), Y),
+               ('AddLink', (D,), (), DL), ('AddLink', (b'N',), (), B), ('AddLink', (A,), (), A),
+               ('AddLink', (A,), (), D), ('RmLink', (), D), ('RmLink', (), A), ('RmLink', (D,), B),
+               ('RmLink', (), Cn), ('AddFile', (), A, 2049), ('AddLink', (A,), (D,), B),
+               ('AddLink', (D, B), (D,), Cn), ('RmDir', (D,)), ('RmFile', (D,), B),
+               ('RmFile', (), DL), ('RmLink', (), Y), ('RmLink', (D,), Z), ('RmDir', (D,))]:
+        run.do(op)
 
 
 def main():
@@ -315,7 +328,10 @@ def main():
         f.write('Import ListNotations.\nLocal Open Scope Z_scope.\n\n')
         for spec in specs:
             run = Runner()
-            if spec == 'scenario':
+            if spec == 'example':
+                example(run)
+                run.emit(f, 'lexample', 'the history of Example lex_history in Proofs/AccountLinksProofs.v')
+            elif spec == 'scenario':
                 scenario(run)
                 run.emit(f, 'lscenario', 'fixed scenario: names of one content in three directories')
             else:
